@@ -24,6 +24,7 @@ type WordRenderer struct {
 	opts      *ConvertOptions
 	source    []byte
 	listLevel int // 当前列表嵌套级别
+	listNumPr *document.NumberingProperties // 当前列表的编号属性（第一个列表项创建，其余列表项共用）
 }
 
 // Render 渲染AST为Word文档
@@ -319,7 +320,9 @@ func addInlineText(para *document.Paragraph, text string, f inlineFormat) {
 // renderList 渲染列表
 func (r *WordRenderer) renderList(node *ast.List) (ast.WalkStatus, error) {
 	r.listLevel++
-	defer func() { r.listLevel-- }()
+	outer := r.listNumPr
+	r.listNumPr = nil // 每个列表使用自己的编号实例
+	defer func() { r.listLevel--; r.listNumPr = outer }()
 
 	// 处理列表项
 	for child := node.FirstChild(); child != nil; child = child.NextSibling() {
@@ -348,11 +351,30 @@ func (r *WordRenderer) renderListItem(node *ast.ListItem) (ast.WalkStatus, error
 		return ast.WalkContinue, nil
 	}
 
-	// 普通列表项处理
-	// 简单的列表项处理，后续可以扩展为真正的列表格式
-	// 这里暂时使用缩进和符号来模拟列表
-	indent := strings.Repeat("  ", r.listLevel-1)
-	para := r.doc.AddParagraph(indent + "• ")
+	// 普通列表项：生成真正的列表段落（带编号属性），符号和缩进来自编号定义，不写进文本，
+	// 这样列表项再导出为Markdown时仍然是列表项
+	level := r.listLevel - 1
+	if level < 0 {
+		level = 0
+	}
+	var para *document.Paragraph
+	if r.listNumPr != nil && r.listNumPr.NumID != nil {
+		// 同一个列表的后续列表项共用第一个列表项的编号实例
+		para = &document.Paragraph{Properties: &document.ParagraphProperties{
+			NumberingProperties: &document.NumberingProperties{
+				ILevel: &document.ILevel{Val: strconv.Itoa(level)},
+				NumID:  &document.NumID{Val: r.listNumPr.NumID.Val},
+			},
+		}}
+		r.doc.Body.AddElement(para)
+	} else {
+		if list, ok := node.Parent().(*ast.List); ok && list.IsOrdered() {
+			para = r.doc.AddNumberedList("", level, document.ListTypeDecimal)
+		} else {
+			para = r.doc.AddBulletList("", level, document.BulletTypeDot)
+		}
+		r.listNumPr = para.Properties.NumberingProperties
+	}
 
 	// 列表项的文本逐段写入，保留行内格式和换行
 	r.renderInlines(node, para, inlineFormat{})
